@@ -31,7 +31,8 @@ def build_cases(tier, seed):
         c4 = fam.cands(4)
         pb = fam.perm_family(4) + fam.bullet_family(4)
         cs += [("int", c) for c in fam.prof_list(pb, 2, (1, 2), c4)]
-        famtxt = "Prof(Rank(3),3,{1,2}) + Prof(Perm(4)+Bullet(4),2,{1,2})"
+        cs += [("rat", c) for c in fam.prof_list(R3, 2, (F(1, 2), F(3, 2), F(7, 2)), c3)]
+        famtxt = "Prof(Rank(3),3,{1,2}) + Prof(Perm(4)+Bullet(4),2,{1,2}) + Prof(Rank(3),2,{1/2,3/2,7/2})"
     else:
         cs += [("int", c) for c in fam.prof_list(R3, 3, (1, 2, 3), c3)]
         c4 = fam.cands(4)
